@@ -16,50 +16,57 @@ CHECKS = {
             'Every get_result() of the real HeapDict is compared online with a sorted-list model fed by the '
             'recorded push stream: all push sequences over 2 keys x 3 values up to length 5 (quick) / 7 (thorough) '
             'x k in 0..3, random hostile histories, and every read inside real searches; search results are checked '
-            'for the n_designs cap and non-increasing score order.', '§5 C14'),
+            'for the n_designs cap and non-increasing score order. Search cases include response units up to 2^32 (scores differing only far below 1e-8).',
+            '§5 C14; §11.5'),
     'C16': ('table oracle (acceptance predicate + row->class map) over a complete enumeration of small tables and ordered subsets',
             'Every table over the 8 possible rows on <=3 (quick) / <=4 (thorough) geos, column- and index-keyed, is '
             'constructed on the real GeoEligibility and the accept/reject decision and exception type compared with the '
             'predicate; for every accepted table every ordered subset (incl. empty / None) is queried with and without '
             'indices and the seven classes checked to partition it with each geo in its row\'s class; malformed variants '
-            '(missing/duplicate columns, duplicate ids, bad entries) are generated per case.', '§5 C16'),
+            '(missing/duplicate columns, duplicate ids, bad entries) are generated per case. A third of the enumerated tables arrive with permuted column order.',
+            '§5 C16; §11.5'),
     'C17': ('three-valued domain-table oracle over a complete one-field boundary grid plus random field pairs',
             'Every field of TBRMMDesignParameters is set, from a valid base object, to every value of a boundary grid '
             '(bounds, nextafter neighbours, 0, negatives, +-inf, NaN, None, wrong types / arity / order) and the real '
             'constructor\'s accept / reject decision and exception type are compared with a table written from the '
             'class docstring (values the docstring is silent on are executed but not judged); pairs of fields, '
-            'documented defaults and field-wise equality are checked as well.', '§5 C17'),
+            'documented defaults and field-wise equality are checked as well. Equality is re-checked after a field of a compared object is assigned.',
+            '§5 C17; §11.5'),
     'C20': ('independent calendar model (datetime.date) over generated day / range lists, permutation and duplication pairs',
             'Generated lists of single days and closed ranges (overlapping, nested, abutting, duplicated, crossing month / '
             'year / leap-day boundaries, years 1700-2200) are expanded by the real find_days_to_exclude + '
             'expand_time_windows and compared day-for-day with a datetime.date model (no extra, missing, duplicate or '
             'non-midnight stamp; same set for a permuted and a duplicated list); malformed entries and reversed ranges '
-            'must raise ValueError.', '§5 C20'),
+            'must raise ValueError. After a call the caller edits the returned objects and the same strings are expanded again (purity).',
+            '§5 C20; §11.5'),
     'C11': ('three-way differential: fast count vs real generator listing vs independent itertools enumeration (exact rational ratio)',
             'For every multiset of the seven row classes over <=3 (quick) / <=4 (thorough) geos x 45 size / geo-ratio '
             'settings, and random class vectors up to 6 / 8 geos, count_max_designs() on the real object is compared with '
             'an itertools.product enumeration of control/treatment/neither assignments and (every third setting) with the '
             'distinct pairs listed by the real generators; exhaustive searches are checked to push no more designs than '
-            'the count.', '§5 C11'),
+            'the count. Also: constraints that drop assignable geos before counting, and class vectors on 20-45 geos against an exact generating-function count.',
+            '§5 C11; §11.5'),
     'C08': ('icontract class invariant (P-DIAG) on the live object + fresh-object history checker',
             'An icontract class invariant installed in place on the real TBRMMDiagnostics asserts after every public '
             'call, property access and setter that each non-None cache slot equals what a pristine second copy of the '
             'class computes from the current series; random histories of 1-40 writes / clears / bad writes / reads over '
             'series pools whose diagnostics differ are run and every returned value is compared with a fresh object; '
-            'the invariant also stays on while the real searches re-use one diagnostics object across control groups.',
-            '§5 C08'),
+            'the invariant also stays on while the real searches re-use one diagnostics object across control groups. History operations include a re-used ndarray work buffer that is edited in place after having been assigned; thorough also runs six repository test files under the monitors.',
+            '§5 C08; §11.5'),
     'C09': ('boundary recorder (exception type + innermost repo frame) on hostile input classes; logical-step bound from P-DATA events',
             'Fifteen hostile input classes (1-2 geos, no control- / treatment-eligible geo, all excluded, empty admitted '
             'set, size ranges beyond the geos, unsatisfiable ratio / share / budget, n_geos_max=2, n_test>=98, window of '
             'exactly n_test+3, iroas=0, over-full fixed groups, random) are run through both real searches on fresh '
             'objects; any exception other than ValueError, or more aggregation events than a polynomial / design-count '
-            'bound, is a violation; the outcome histogram per class is reported.', '§5 C09'),
+            'bound, is a violation; the outcome histogram per class is reported. Classes added after seeding rounds: integer-valued float parameters (also mixed int/float ranges), a geo that starts reporting < n_test days before the end, shared data objects.',
+            '§5 C09; §11.5'),
     'C15': ('reference-model monitor: pure-Python pivot (math.fsum) vs the real TBRMMData attributes and aggregates',
             'Generated long-format frames (shuffled rows, int / string IDs, ISO or datetime dates, missing cells) with '
             'eligibility tables absent / equal / subset / superset of the data are given to the real TBRMMData; df rows, '
             'columns, values, row order, geo_share, assignable, the reconciliation outcome (rows dropped vs ValueError) '
             'and, under random ordered geo_index lists and tuples, positional geo_assignments and aggregate_* over random '
-            'index sets are compared with a dictionary-based pivot that does not use pandas.', '§5 C15'),
+            'index sets are compared with a dictionary-based pivot that does not use pandas. Also: negative and mixed-sign responses, object-dtype and mixed int/str id columns, extra partly-NaN columns.',
+            '§5 C15; §11.5'),
     'C01': ('boundary recorder on both real searches + legality oracle from the generator\'s own eligibility rows; admitted-set reference model',
             'Every design returned by exhaustive_search and greedy_search on generated panels / eligibility matrices / '
             'constraint mixes (2-7 geos for both, up to 30 geos greedy-only; thorough: every multiset of row classes on '
@@ -88,59 +95,66 @@ CHECKS = {
             'For every design at every list position of both searches the series held by its diagnostics are compared with '
             'sums over the reported geo IDs of the raw responses on the last n_pretest_max dates, and corr, required impact, '
             'the four test outcomes, the score tuple and its last entry are compared with a recomputation from those two '
-            'series alone; inputs make geo order, exclusion, n_geos_max and window truncation bite.', '§5 C04'),
+            'series alone; inputs make geo order, exclusion, n_geos_max and window truncation bite. Also: input frames with an unrelated partly-NaN column, response units 2^-20..2^30, a data object shared with a second search object or carrying a pre-installed geo index.',
+            '§5 C04; §11.5'),
     'C13': ('differential monitor: real greedy_search vs real exhaustive_search (unbounded n_designs) with the brute force as referee',
             'On inputs without budget / share constraints every greedy design must belong to the full ranked set of the '
             'exhaustive search run on a fresh object, none may score above its best, and greedy must be empty when the '
             'exhaustive search is; a third of the cases also run the brute-force oracle on the exhaustive result so that a '
-            'fault there is attributed correctly.', '§5 C13'),
+            'fault there is attributed correctly. Also: dyadic panels with volume ratios exactly on a bound and near-bound cases (bound 1e-7..3e-6 inside a greedy design\'s value).',
+            '§5 C13; §11.5'),
     'C10': ('history checker: per-operation fresh-object replay (sequential reference model) + before/after snapshots of parameters and frame',
             'Random histories of 2-12 public calls (13 operations: constraint sets, assignments, size range, count, group '
             'listings, constraint predicate, both searches, result retrieval) are applied to one object; each normalised '
             'answer or exception type is compared with the same call on a freshly built object, search_results() with what '
             'the last search returned (also retrieved twice), and dataclasses.asdict(parameters) / the input frame are '
-            'compared around every call; thorough runs under three PYTHONHASHSEEDs.', '§5 C10'),
+            'compared around every call; thorough runs under three PYTHONHASHSEEDs. Histories also contain searches of a sibling object sharing the data object, and tie panels; P-HEAP alarms (double read of the container) are consumed.',
+            '§5 C10; §11.5'),
     'C12': ('metamorphic run-pair monitor on the real searches (shuffle, date shift, id type, renaming, 2^k scaling)',
             'The same search is run on an input and on a transformed copy (row shuffle, all dates shifted, int<->str IDs, '
             'order-reversing renaming applied to frame and eligibility matrix, responses and budget range x 2^k) and the two '
             'results compared position by position: groups (un-renamed) exact, discrete score entries exact, correlations '
             'equal, impact-based entries scaled; exact-tie panels are handled by a tie guard; thorough runs under three '
-            'PYTHONHASHSEEDs.', '§5 C12'),
+            'PYTHONHASHSEEDs. Also: restated (geo, date) rows under shuffling, IDs with blanks, exact impact ties at the n_geos_max cut, scale factors 2^-30..2^31.',
+            '§5 C12; §11.5'),
     'C05': ('two-sided differential monitor (design-side closed form vs analysis-side TBR posterior) with an independent numpy referee; metamorphic pairs',
             'For generated pre-period series and parameters (n 3..120, n_test 1..60, sig / power in (0.01, 0.995), flevel up '
             'to 0.9995, |corr| 0.3..0.9999) the real TBRMMDiagnostics.required_impact is compared with (t_sig + t_pow) x the '
             'scale the real tbr.TBR assigns to an experiment constructed with the planning displacement, and TBR.summary on '
             'the frame carrying exactly that lift must estimate it with lower bound t_pow x scale; an independent closed form '
             'attributes disagreements; unit scaling (2^k exact), level shift, monotonicity and sign symmetry in the '
-            'correlation are checked as run pairs.', '§5 C05'),
+            'correlation are checked as run pairs. Half of the cases re-use one diagnostics object (decoy series first), a third edit the buffer they passed afterwards; units from 2^-50 to 2^40.',
+            '§5 C05; §11.5'),
     'C06': ('reference-model monitor: closed-form TBR posterior (numpy OLS + Kerman eq. 5) vs the real tbr.TBR; layout run pairs; design-side differential',
             'For generated experiment frames (n_pre 3..59, with / without cooldown, 1-6 geos per group, unassigned geos, gap '
             'and trailing periods) every analysed day of the real causal_cumulative_distribution is compared with df = n_pre-2, '
             'the cumulative OLS-counterfactual difference and the eq.-5 scale computed from pure-Python per-date totals; '
             'shuffled / geo-split / extra-unassigned layouts must give the same posterior; every summary column (estimate, '
             'precision, lower, upper, scale, probability, echoes, report rows) is checked for random level / tails / '
-            'threshold / rescale; TBRMMDiagnostics.tbrfit must agree with the last-day estimate and half-width.', '§5 C06'),
+            'threshold / rescale; TBRMMDiagnostics.tbrfit must agree with the last-day estimate and half-width. Also: int64 metric columns, an unrelated partly-NaN column, re-fit of a used model object, time index combined with rescale, design-side object re-use.',
+            '§5 C06; §11.5'),
     'C07': ('reference-model monitor (closed-form response posterior / observed incremental cost) + determinism and scale-equivariance run pairs',
             'On generated fixed-cost and variable-cost experiment frames the real TBRiROAS.summary is checked: fixed-cost '
             'estimate and bounds against the closed-form response posterior divided by the incremental cost, incremental '
             'response bounds = iROAS bounds x cost, probability, scenario label against the zero-cost predicate; variable-cost '
             'reports must be identical for equal random_state and keep lower <= estimate <= upper; scaling cost by a and '
-            'response by b (powers of two) must scale iROAS figures by b/a and leave probability and relative lift unchanged.',
-            '§5 C07'),
+            'response by b (powers of two) must scale iROAS figures by b/a and leave probability and relative lift unchanged. Also: mixed frames where only one group spends (label judged), cost scales 1e-6..1e3, int64 columns, re-fit of a used model object.',
+            '§5 C07; §11.5'),
     'C18': ('reference-model monitor (closed-form posterior, numpy OLS) on the real effect-series report; model-based classifier for raises',
             'On generated experiment frames with cooldown (both metrics, both cost scenarios, tails, levels, control shapes, '
             'optional dates outside the three periods) the real estimate_pointwise_and_cumulative_effect must succeed and its '
             'three series are checked date by date: lower <= estimate <= upper (re-checked independently of the container), '
             'counterfactual + pointwise = observed treatment series, pre-period pointwise = OLS residuals, cumulative estimate '
             'and bounds = closed-form incremental effect and posterior quantiles. A container ValueError is accepted as the '
-            'known first-difference-bounds finding only when the closed-form cumulative scale decreases on some day.',
-            '§5 C18'),
+            'known first-difference-bounds finding only when the closed-form cumulative scale decreases on some day. Also: int64 metric columns, re-fit of a used model object, treatment-only pre-period spend (degenerate cost regression judged on residual / sum clauses).',
+            '§5 C18; §11.5'),
     'C19': ('set-arithmetic oracle on the raw frame + own group-by; row-permutation run pair',
             'On generated experiment frames (planted or absent noisy geos and outlier dates, <4 geos, custom column names and '
             'labels, unassigned geos, shuffled rows, shifted index) the real TBRDiagnostics.fit is run; get_data() must equal '
             'the input rows minus the rows of the reported noisy geos and outlier dates (order, columns and index included), '
             'get_analysis_data() the per-date control / treatment totals of that screened data, the caller frame must be '
-            'unchanged and a row permutation must report the same results.', '§5 C19'),
+            'unchanged and a row permutation must report the same results. Also: non-unique row labels, re-fit of a used object, edits of the returned frame followed by another read; a whole-group ValueError is accepted only if the reported removals really empty a group.',
+            '§5 C19; §11.5'),
 }
 
 NOT_YET = {}
